@@ -193,7 +193,13 @@ def assemble(repo_dir: str, unit: dict, out_path: str):
     """Build the single Verus file for a unit.  Returns (meta) where meta has
     'functions' (under contract), 'linemap', 'dropped', 'assumption_scan'."""
     tpath = os.path.join(VERUS_DIR, unit["template"])
-    tmpl = open(tpath).read().split("\n")
+    tmpl = []
+    for ln in open(tpath).read().split("\n"):
+        mi = re.match(r"\s*//@INCLUDE\s+(\S+)", ln)
+        if mi:
+            tmpl += open(os.path.join(VERUS_DIR, mi.group(1))).read().split("\n")
+        else:
+            tmpl.append(ln)
     # first pass: collect contracts
     contracts, body_lines = {}, []
     i = 0
